@@ -242,6 +242,209 @@ Lemma rd_toplevel_ref_differs_lemma :
   end.
 Proof. vm_compute. repeat split; reflexivity. Qed.
 
+
+(* ------------------------------------------------------------------ the "keep only the highest generation" pass *)
+Definition rd_obj_of (e : N * N * c3_xe) : N := fst (fst e).
+Definition rd_gen_of (e : N * N * c3_xe) : N := snd (fst e).
+(* std::map order on (obj, gen) *)
+Definition rd_klt (a b : N * N * c3_xe) : Prop :=
+  rd_obj_of a < rd_obj_of b \/ (rd_obj_of a = rd_obj_of b /\ rd_gen_of a < rd_gen_of b).
+Fixpoint rd_sorted (l : rd_tbl) : Prop :=
+  match l with
+  | [] => True
+  | a :: r => (forall b, In b r -> rd_klt a b) /\ rd_sorted r
+  end.
+
+Lemma rd_gen_pass_cons : forall a b r,
+  rd_gen_pass (a :: b :: r) =
+  if (rd_obj_of a =? rd_obj_of b) && (0 <? rd_obj_of b) then rd_gen_pass (b :: r) else a :: rd_gen_pass (b :: r).
+Proof. reflexivity. Qed.
+
+Lemma rd_gen_pass_in : forall l e, In e (rd_gen_pass l) -> In e l.
+Proof.
+  induction l as [|a r IH]; intros e H; [exact H|].
+  destruct r as [|b r']; [exact H|].
+  rewrite rd_gen_pass_cons in H.
+  destruct ((rd_obj_of a =? rd_obj_of b) && (0 <? rd_obj_of b)).
+  - right. apply IH. exact H.
+  - destruct H as [H|H]; [left; exact H | right; apply IH; exact H].
+Qed.
+
+Lemma rd_gen_pass_highest : forall l e, rd_sorted l -> In e (rd_gen_pass l) -> 0 < rd_obj_of e ->
+  forall e', In e' l -> rd_obj_of e' = rd_obj_of e -> rd_gen_of e' <= rd_gen_of e.
+Proof.
+  induction l as [|a r IH]; intros e Hs Hin Hpos e' Hin' Ho; [destruct Hin|].
+  destruct Hs as [Hmin Hs].
+  destruct r as [|b r'].
+  - destruct Hin as [E|[]]. destruct Hin' as [E'|[]]. subst. lia.
+  - rewrite rd_gen_pass_cons in Hin.
+    destruct ((rd_obj_of a =? rd_obj_of b) && (0 <? rd_obj_of b)) eqn:C.
+    + apply andb_prop in C. destruct C as [C1 C2]. apply N.eqb_eq in C1.
+      destruct Hin' as [E'|Hin'].
+      * subst a.
+        assert (Hb : rd_gen_of b <= rd_gen_of e) by (apply (IH e Hs Hin Hpos b); [left; reflexivity | lia]).
+        destruct (Hmin b (or_introl eq_refl)) as [K|[_ K]]; lia.
+      * apply (IH e Hs Hin Hpos e' Hin' Ho).
+    + assert (Hab : 0 < rd_obj_of a -> rd_obj_of a < rd_obj_of b).
+      { intros Hp. destruct (Hmin b (or_introl eq_refl)) as [K|[K1 K2]]; [exact K|].
+        rewrite K1 in C. rewrite N.eqb_refl in C. simpl in C. apply N.ltb_ge in C. lia. }
+      destruct Hs as [Hminb Hs'].
+      assert (Hge : forall x, In x (b :: r') -> rd_obj_of b <= rd_obj_of x).
+      { intros x [<-|Hx]; [lia|]. destruct (Hminb x Hx) as [K|[K _]]; lia. }
+      destruct Hin as [E|Hin].
+      * subst a. destruct Hin' as [E'|Hin']; [subst; lia|].
+        exfalso. pose proof (Hge e' Hin'). specialize (Hab Hpos). lia.
+      * destruct Hin' as [E'|Hin'].
+        -- subst a. exfalso. pose proof (Hge e (rd_gen_pass_in _ _ Hin)).
+           assert (0 < rd_obj_of e') by lia. specialize (Hab H0). lia.
+        -- apply (IH e (conj Hminb Hs') Hin Hpos e' Hin' Ho).
+Qed.
+
+Lemma rd_sorted_key_inj : forall l e1 e2, rd_sorted l -> In e1 l -> In e2 l ->
+  rd_obj_of e1 = rd_obj_of e2 -> rd_gen_of e1 = rd_gen_of e2 -> e1 = e2.
+Proof.
+  induction l as [|a r IH]; intros e1 e2 Hs0 H1 H2 Ho Hg; [destruct H1|].
+  destruct Hs0 as [Hmin Hs].
+  destruct H1 as [E1|H1], H2 as [E2|H2].
+  - congruence.
+  - subst a. destruct (Hmin e2 H2) as [K|[_ K]]; lia.
+  - subst a. destruct (Hmin e1 H1) as [K|[_ K]]; lia.
+  - apply (IH e1 e2 Hs H1 H2 Ho Hg).
+Qed.
+
+Lemma rd_gen_pass_survives : forall l e', In e' l -> exists e, In e (rd_gen_pass l) /\ rd_obj_of e = rd_obj_of e'.
+Proof.
+  induction l as [|a r IH]; intros e' H; [destruct H|].
+  destruct r as [|b r'].
+  - destruct H as [<-|[]]. exists a. split; [left; reflexivity | reflexivity].
+  - rewrite rd_gen_pass_cons.
+    destruct ((rd_obj_of a =? rd_obj_of b) && (0 <? rd_obj_of b)) eqn:C.
+    + destruct H as [<-|H].
+      * apply andb_prop in C. destruct C as [C1 _]. apply N.eqb_eq in C1.
+        destruct (IH b (or_introl eq_refl)) as (e & He & Ho). exists e. split; [exact He | lia].
+      * apply IH. exact H.
+    + destruct H as [<-|H].
+      * exists a. split; [left; reflexivity | reflexivity].
+      * destruct (IH e' H) as (e & He & Ho). exists e. split; [right; exact He | exact Ho].
+Qed.
+
+(* the table in map order *)
+Lemma rd_insert_sorted_in : forall e l x, In x (rd_insert_sorted e l) -> x = e \/ In x l.
+Proof.
+  intros e. induction l as [|h t IH]; intros x H.
+  - destruct H as [<-|[]]. left; reflexivity.
+  - cbn [rd_insert_sorted] in H. destruct e as [[o g] xe]. destruct h as [[o' g'] xh].
+    destruct ((o <? o') || ((o =? o') && (g <? g'))).
+    + destruct H as [<-|H]; [left; reflexivity | right; exact H].
+    + destruct ((o =? o') && (g =? g')).
+      * right. exact H.
+      * destruct H as [<-|H]; [right; left; reflexivity|]. destruct (IH x H) as [->|K]; [left; reflexivity | right; right; exact K].
+Qed.
+
+Lemma rd_insert_sorted_sorted : forall e l, rd_sorted l -> rd_sorted (rd_insert_sorted e l).
+Proof.
+  intros [[o g] xe]. induction l as [|h t IH]; intros Hs.
+  - cbn. split; [intros b []| exact I].
+  - cbn [rd_insert_sorted]. destruct h as [[o' g'] xh].
+    destruct Hs as [Hmin Hs].
+    destruct ((o <? o') || ((o =? o') && (g <? g'))) eqn:C1.
+    + assert (K : rd_klt (o, g, xe) (o', g', xh)).
+      { unfold rd_klt, rd_obj_of, rd_gen_of. cbn. apply orb_prop in C1. destruct C1 as [C|C].
+        - left. apply N.ltb_lt. exact C.
+        - apply andb_prop in C. destruct C as [Ca Cb]. right. split; [apply N.eqb_eq; exact Ca | apply N.ltb_lt; exact Cb]. }
+      split; [|split; assumption].
+      intros b [<-|Hb]; [exact K|].
+      specialize (Hmin b Hb). unfold rd_klt, rd_obj_of, rd_gen_of in *. cbn in *. lia.
+    + destruct ((o =? o') && (g =? g')) eqn:C2; [split; assumption|].
+      split.
+      * intros b Hb. destruct (rd_insert_sorted_in _ _ _ Hb) as [->|Hb'].
+        -- unfold rd_klt, rd_obj_of, rd_gen_of. cbn.
+           apply orb_false_elim in C1. destruct C1 as [Ca Cb]. apply N.ltb_ge in Ca.
+           apply andb_false_elim in Cb. apply andb_false_elim in C2.
+           destruct (N.eq_dec o o') as [->|Hne].
+           ++ right. split; [reflexivity|]. rewrite N.eqb_refl in *.
+              destruct Cb as [Cb|Cb]; [discriminate|]. destruct C2 as [C2|C2]; [discriminate|].
+              apply N.ltb_ge in Cb. apply N.eqb_neq in C2. lia.
+           ++ left. lia.
+        -- apply Hmin. exact Hb'.
+      * apply IH. exact Hs.
+Qed.
+
+Lemma rd_sort_sorted : forall t, rd_sorted (fold_right rd_insert_sorted [] t).
+Proof. induction t as [|a t IH]; cbn; [exact I | apply rd_insert_sorted_sorted; exact IH]. Qed.
+
+Lemma rd_sort_in : forall t x, In x (fold_right rd_insert_sorted [] t) -> In x t.
+Proof.
+  induction t as [|a t IH]; cbn; intros x H; [exact H|].
+  destruct (rd_insert_sorted_in _ _ _ H) as [->|K]; [left; reflexivity | right; apply IH; exact K].
+Qed.
+
+Lemma rd_insert_sorted_keeps : forall e l x, In x l -> exists y, In y (rd_insert_sorted e l) /\ fst y = fst x.
+Proof.
+  intros e. induction l as [|h t IH]; intros x H; [destruct H|].
+  cbn [rd_insert_sorted]. destruct e as [[o g] xe]. destruct h as [[o' g'] xh].
+  destruct ((o <? o') || ((o =? o') && (g <? g'))).
+  - exists x. split; [right; exact H | reflexivity].
+  - destruct ((o =? o') && (g =? g')).
+    + exists x. split; [exact H | reflexivity].
+    + destruct H as [<-|H].
+      * exists (o', g', xh). split; [left; reflexivity | reflexivity].
+      * destruct (IH x H) as (y & Hy & Hk). exists y. split; [right; exact Hy | exact Hk].
+Qed.
+
+Lemma rd_insert_sorted_has : forall e l, exists y, In y (rd_insert_sorted e l) /\ fst y = fst e.
+Proof.
+  intros e. induction l as [|h t IH].
+  - exists e. split; [left; reflexivity | reflexivity].
+  - cbn [rd_insert_sorted]. destruct e as [[o g] xe]. destruct h as [[o' g'] xh].
+    destruct ((o <? o') || ((o =? o') && (g <? g'))).
+    + exists (o, g, xe). split; [left; reflexivity | reflexivity].
+    + destruct ((o =? o') && (g =? g')) eqn:C.
+      * apply andb_prop in C. destruct C as [Ca Cb]. apply N.eqb_eq in Ca. apply N.eqb_eq in Cb. subst.
+        exists (o', g', xh). split; [left; reflexivity | reflexivity].
+      * destruct IH as (y & Hy & Hk). exists y. split; [right; exact Hy | exact Hk].
+Qed.
+
+Lemma rd_sort_keeps : forall t x, In x t -> exists y, In y (fold_right rd_insert_sorted [] t) /\ fst y = fst x.
+Proof.
+  induction t as [|a t IH]; intros x H; [destruct H|]. cbn.
+  destruct H as [<-|H].
+  - apply rd_insert_sorted_has.
+  - destruct (IH x H) as (y & Hy & Hk). destruct (rd_insert_sorted_keeps a _ y Hy) as (z & Hz & Hk2).
+    exists z. split; [exact Hz | congruence].
+Qed.
+
+(* rd_highest_generation_only: for EVERY table t built while the sections were read (whatever the chain was), the table
+   that read_xref leaves, rd_gen_pass (sort t), holds for each positive object number
+   (a) at most one entry, (b) which is an entry of t with the highest generation t has for that number,
+   (c) and every number of t is still there. *)
+Lemma rd_highest_generation_only_lemma : forall (t : rd_tbl),
+  let final := rd_gen_pass (fold_right rd_insert_sorted [] t) in
+  (forall e1 e2, In e1 final -> In e2 final -> rd_obj_of e1 = rd_obj_of e2 -> 0 < rd_obj_of e1 -> e1 = e2) /\
+  (forall e, In e final -> 0 < rd_obj_of e ->
+     In e t /\ forall e', In e' t -> rd_obj_of e' = rd_obj_of e -> rd_gen_of e' <= rd_gen_of e) /\
+  (forall e', In e' t -> exists e, In e final /\ rd_obj_of e = rd_obj_of e').
+Proof.
+  intros t final. pose proof (rd_sort_sorted t) as Hs.
+  assert (Hhigh : forall e, In e final -> 0 < rd_obj_of e ->
+            forall e', In e' t -> rd_obj_of e' = rd_obj_of e -> rd_gen_of e' <= rd_gen_of e).
+  { intros e He Hp e' He' Ho. destruct (rd_sort_keeps t e' He') as (y & Hy & Hk).
+    assert (rd_gen_of y <= rd_gen_of e).
+    { apply (rd_gen_pass_highest _ e Hs He Hp y Hy). unfold rd_obj_of in *. rewrite Hk. exact Ho. }
+    unfold rd_gen_of in *. rewrite <- Hk. exact H. }
+  split; [|split].
+  - intros e1 e2 H1 H2 Ho Hp.
+    pose proof (rd_gen_pass_in _ _ H1) as I1. pose proof (rd_gen_pass_in _ _ H2) as I2.
+    apply (rd_sorted_key_inj _ e1 e2 Hs I1 I2 Ho).
+    pose proof (Hhigh e1 H1 Hp e2 (rd_sort_in _ _ I2) (eq_sym Ho)).
+    assert (Hp2 : 0 < rd_obj_of e2) by lia.
+    pose proof (Hhigh e2 H2 Hp2 e1 (rd_sort_in _ _ I1) Ho). lia.
+  - intros e He Hp. split; [apply rd_sort_in; apply rd_gen_pass_in; exact He | apply Hhigh; assumption].
+  - intros e' He'. destruct (rd_sort_keeps t e' He') as (y & Hy & Hk).
+    destruct (rd_gen_pass_survives _ y Hy) as (e & He & Ho). exists e. split; [exact He|].
+    unfold rd_obj_of in *. rewrite Ho, Hk. reflexivity.
+Qed.
+
 (* ------------------------------------------------------------------ UNPROVED (statements kept for the record)
    rd_reader_agrees_strict : forall file sf, read_strict file = RsOk sf -> rd_no_bare_ref_object sf ->
        rd_lower_agree file (* Lex/TokModel.read_token and Obj/ParseModel.parse_object agree with StrictSyntax.next_tok /
@@ -256,6 +459,7 @@ Proof. vm_compute. repeat split; reflexivity. Qed.
      statement also needs 0 <= g.  The per-object core (parse_indirect accepts at off  ->  rd_read_at returns the same
      value and extent, no warning) was designed with these hypotheses but not finished.
    rd_reads_writer_output : forall d, wf_doc d -> rd_view (write_doc d) reads d back.
-     Not proved: it is the composition of write_read_strict_lemma (Obj/C01FileProofs.v) with rd_reader_agrees_strict.
+     Not proved as a whole.  The bridge (the parser model reads what the writer model prints) and readObjectAtOffset on an
+     emitted object ARE proved in File/C03ProofsRdW.v, which also lists the steps that are still missing.
    What IS proved about the reader: the stream-extent and header lemmas above, for all inputs; the agreement of the whole
    view is tested (harness/c03read.py: model = qpdf = ISO ground truth on about 1200 aimed files per run). *)
